@@ -45,7 +45,7 @@ def _run_one(args):
         R, _ = run_property(prop, "quick", root, quiet=True, overrides={file: mutated})
         keys = {o.key for o in R.violations()}
         try:
-            R.finish("", write=False)
+            R.check_floors()
         except AnalysisError as e:
             keys.add("ANALYSIS-ERROR:%s" % e)
     except AnalysisError as e:
@@ -55,7 +55,8 @@ def _run_one(args):
     new_keys = sorted(k for k in keys if k not in baseline_keys)
     if expect is None:
         return (m_name, "ok" if not new_keys else "noise", new_keys[:3])
-    hit = [k for k in new_keys if expect in k]
+    alts = expect if isinstance(expect, (tuple, list)) else (expect,)
+    hit = [k for k in new_keys if any(a in k for a in alts)]
     return (m_name, "ok" if hit else "miss", new_keys[:3])
 
 
